@@ -15,6 +15,7 @@ import (
 	"net"
 	"net/http"
 	"regexp"
+	"strconv"
 	"strings"
 	"sync"
 )
@@ -126,5 +127,29 @@ func acceptsGzip(r *http.Request) bool {
 			return false
 		}
 	}
-	return strings.Contains(r.Header.Get(headerAcceptEncoding), encodingGzip)
+	return acceptsEncoding(r.Header.Get(headerAcceptEncoding), encodingGzip)
+}
+
+// acceptsEncoding reports whether the Accept-Encoding header value lists the
+// given content coding with a non-zero weight. A coding with "q=0" is
+// explicitly not acceptable (RFC 9110, section 12.4.2 and 12.5.3).
+func acceptsEncoding(acceptEncoding, encoding string) bool {
+	for _, elem := range strings.Split(acceptEncoding, ",") {
+		coding, params, _ := strings.Cut(elem, ";")
+		if !strings.EqualFold(strings.TrimSpace(coding), encoding) {
+			continue
+		}
+		for _, param := range strings.Split(params, ";") {
+			name, value, _ := strings.Cut(param, "=")
+			if !strings.EqualFold(strings.TrimSpace(name), "q") {
+				continue
+			}
+			q, err := strconv.ParseFloat(strings.TrimSpace(value), 64)
+			if err != nil || q <= 0 {
+				return false
+			}
+		}
+		return true
+	}
+	return false
 }
